@@ -60,7 +60,9 @@ func fromWire(v any) (any, error) {
 	case nil, bool, string:
 		return v2, nil
 	case []any:
-		ret := make([]any, 0, len(v2))
+		// grown by append, like every list that bkl's loader hands on (normalize -> filterList): a list of 3 has
+		// room for a 4th entry, which is what makes a shared backing array observable
+		ret := []any{}
 		for _, x := range v2 {
 			y, err := fromWire(x)
 			if err != nil {
